@@ -140,16 +140,88 @@ pub fn check_case(case: &MapCase, st: &mut Stats) -> Check {
             return Err(Fail::new("header-edit-kind", format!("header edit {name} on a {full_len}-byte cache ({header:?}): parse says {got:?}, the layout implies {want:?}")).with(json!({"edit": name})));
         }
     }
+    // ---- foreign headers: magic and version edited together, fully byte-swapped header (file written on a
+    // machine of the other endianness). The magic decides first: swapped => endianness, other => format.
+    let magics = [header.magic.swap_bytes(), 0u32, header.magic.wrapping_add(1), (case.key as u32) | 0x0101_0101, u32::from_le_bytes(*b"PK\x03\x04"), u32::from_le_bytes(*b"com.")];
+    let versions = [0u32, 2, u32::MAX, 1u32.swap_bytes(), (case.key >> 32) as u32 | 2];
+    for m in magics {
+        for v in versions {
+            let mut h = Header { magic: m, version: v, ..header };
+            for swap_counts in [false, true] {
+                if swap_counts {
+                    h.num_classes = h.num_classes.swap_bytes();
+                    h.num_members = h.num_members.swap_bytes();
+                    h.num_members_by_params = h.num_members_by_params.swap_bytes();
+                    h.string_bytes = h.string_bytes.swap_bytes();
+                }
+                st.evaluations += 1;
+                put_header(buf.bytes_mut(), &h);
+                let want = expected_parse(full_len, Some(&h));
+                let got = parse_kind(buf.bytes());
+                buf.bytes_mut()[..layout::HEADER_LEN].copy_from_slice(&original);
+                let got = got.map_err(|e| Fail::new("parse-panic", format!("parse panicked with foreign header {h:?}: {e}")))?;
+                st.class("foreign header: magic and version both differ");
+                st.nontrivial(qhash(case_hash, b'F', &[&m.to_le_bytes(), &v.to_le_bytes(), &[swap_counts as u8]]));
+                if got != want {
+                    return Err(Fail::new("foreign-header-kind", format!("buffer with magic {m:#x} and version {v} ({full_len} bytes): parse says {got:?}, expected {want:?}")).with(json!({"magic": m, "version": v})));
+                }
+            }
+        }
+    }
     Ok(())
+}
+
+/// Foreign files handed to the cache parser: mapping text, zeros, random bytes.
+pub fn check_foreign(bytes: &[u8], st: &mut Stats) -> Check {
+    st.evaluations += 1;
+    let buf = crate::api::AlignedBuf::new(bytes);
+    let h = layout::read_header(buf.bytes());
+    let want = expected_parse(buf.len(), h.as_ref());
+    let got = parse_kind(buf.bytes()).map_err(|e| Fail::new("parse-panic", format!("parse panicked on a foreign buffer: {e}")))?;
+    st.nontrivial(crate::engine::fnv64(bytes));
+    st.class(match want {
+        ExpectedParse::InvalidHeader => "foreign buffer shorter than a header",
+        ExpectedParse::WrongFormat => "foreign buffer: wrong format",
+        ExpectedParse::WrongEndianness => "foreign buffer: byte-swapped magic",
+        _ => "foreign buffer: other",
+    });
+    if got != want {
+        return Err(Fail::new("foreign-buffer-kind", format!("foreign buffer of {} bytes starting {:?}: parse says {got:?}, expected {want:?}", bytes.len(), crate::engine::show_bytes(&bytes[..bytes.len().min(32)]))).with(json!({"hex": crate::engine::hex(&bytes[..bytes.len().min(4096)])})));
+    }
+    Ok(())
+}
+
+#[derive(Clone, Debug, serde::Serialize, serde::Deserialize)]
+pub struct ForeignCase {
+    pub hex: String,
+}
+
+pub fn foreign_case() -> proptest::strategy::BoxedStrategy<ForeignCase> {
+    use proptest::prelude::*;
+    let cfg = cfg();
+    prop_oneof![
+        3 => proptest::collection::vec(any::<u8>(), 0..120).prop_map(|v| ForeignCase { hex: crate::engine::hex(&v) }),
+        2 => (0usize..200).prop_map(|n| ForeignCase { hex: crate::engine::hex(&vec![0u8; n]) }),
+        3 => map_case(&cfg).prop_map(|c| ForeignCase { hex: crate::engine::hex(&c.bytes()) }),
+        2 => (proptest::collection::vec(any::<u8>(), 20..100), 0u32..4).prop_map(|(mut v, k)| {
+            // random tail behind a magic that is right, swapped, or off by one
+            let m = u32::from_le_bytes(*b"PRGC");
+            let m = match k { 0 => m, 1 => m.swap_bytes(), 2 => m + 1, _ => m ^ 0x20 };
+            v[..4].copy_from_slice(&m.to_le_bytes());
+            ForeignCase { hex: crate::engine::hex(&v) }
+        }),
+    ]
+    .boxed()
 }
 
 pub fn run(ctx: &Ctx) -> Report {
     let mut rep = Report::new(ID, "fault_enumeration", ctx);
-    rep.rule = "Cases: valid caches written from grammar-generated mappings (0..~60 classes). Per cache, enumerated exhaustively: every strict prefix length 0..len-1 and every single-field edit of the 24-byte header (magic in {byte-swapped,0,+1,random}; version in {0,2,2^32-1,random}; each of the four counts in {0,-1,+1,*2,2^31,2^32-1}). Oracle: expected outcome computed from the documented layout (first section that does not fit decides InvalidClasses/InvalidMembers/UnexpectedStringBytes{expected,found}; magic/version rules); a prefix that is accepted must answer the whole universe like the full file. evaluations = parse calls. Non-trivial = distinct (file, fault) where the rejection depends on a section check (prefix >= 24 bytes, count edits).".into();
+    rep.rule = "Cases: valid caches written from grammar-generated mappings (0..~60 classes). Per cache, enumerated exhaustively: every strict prefix length 0..len-1 and every single-field edit of the 24-byte header (magic in {byte-swapped,0,+1,random}; version in {0,2,2^32-1,random}; each of the four counts in {0,-1,+1,*2,2^31,2^32-1}), plus a grid of foreign headers where magic and version differ together (incl. fully byte-swapped headers), plus foreign buffers (mapping text, zeros, random bytes, random tails behind right/swapped/near-miss magic). Oracle: expected outcome computed from the documented layout (first section that does not fit decides InvalidClasses/InvalidMembers/UnexpectedStringBytes{expected,found}; magic/version rules); a prefix that is accepted must answer the whole universe like the full file. evaluations = parse calls. Non-trivial = distinct (file, fault) where the rejection depends on a section check (prefix >= 24 bytes, count edits).".into();
     rep.assumptions = vec!["buffers are 8-byte aligned (prefixes are sub-slices of an aligned buffer)".into()];
     let n = ctx.cases(10_000, 150_000);
     rep.run_stage("ast", || map_case(&cfg()), n, check_case);
-    rep.stats.exhaustive.push("per generated cache: all strict prefixes and all listed single-field header edits".into());
+    rep.run_stage("foreign", foreign_case, ctx.cases(20_000, 300_000), |c: &ForeignCase, st: &mut Stats| check_foreign(&crate::engine::unhex(&c.hex), st));
+    rep.stats.exhaustive.push("per generated cache: all strict prefixes, all listed single-field header edits, and a 6x5x2 grid of foreign (magic, version, byte-swapped counts) headers".into());
     rep
 }
 
@@ -157,6 +229,10 @@ pub fn replay(stage: &str, case: &Value) -> Check {
     let mut st = Stats::new();
     match stage {
         "ast" => check_case(&serde_json::from_value(case.clone()).map_err(|e| Fail::new("harness-replay", e.to_string()))?, &mut st),
+        "foreign" => {
+            let c: ForeignCase = serde_json::from_value(case.clone()).map_err(|e| Fail::new("harness-replay", e.to_string()))?;
+            check_foreign(&crate::engine::unhex(&c.hex), &mut st)
+        }
         _ => Err(Fail::new("harness-replay", format!("unknown stage {stage}"))),
     }
 }
